@@ -158,6 +158,7 @@ class ScenarioManagerSd(ScenarioManager):
         for name, converter in model.converters.items() :
             new_converter = new_mod.converter(converter.name)
             new_converter._elements = converter._elements
+            new_converter._equation = converter._equation # a later edit of the clone (e.g. a stock's initial value) rebuilds the function from it
             new_converter.function_string = converter.function_string
             new_converter.generate_function()
             new_mod.memo[converter.name] = {}
@@ -165,6 +166,7 @@ class ScenarioManagerSd(ScenarioManager):
         for name, flow in model.flows.items():
             new_flow = new_mod.flow(flow.name)
             new_flow._elements = flow._elements
+            new_flow._equation = flow._equation # a later edit of the clone (e.g. a stock's initial value) rebuilds the function from it
             new_flow.function_string = flow.function_string
             new_flow.generate_function()
             new_mod.memo[flow.name] = {}
@@ -172,6 +174,7 @@ class ScenarioManagerSd(ScenarioManager):
         for name, biflow in model.biflows.items():
             new_biflow = new_mod.biflow(biflow.name)
             new_biflow._elements = biflow._elements
+            new_biflow._equation = biflow._equation # a later edit of the clone (e.g. a stock's initial value) rebuilds the function from it
             new_biflow.function_string = biflow.function_string
             new_biflow.generate_function()
             new_mod.memo[biflow.name] = {}
@@ -179,6 +182,7 @@ class ScenarioManagerSd(ScenarioManager):
         for name, stock in model.stocks.items():
             new_stock = new_mod.stock(stock.name)
             new_stock._elements = stock._elements
+            new_stock._equation = stock._equation # a later edit of the clone (e.g. a stock's initial value) rebuilds the function from it
             new_stock.function_string = stock.function_string
             new_stock._Stock__initial_value = new_mod.constants[stock._Stock__initial_value.name] if type(stock._Stock__initial_value) is str else stock._Stock__initial_value
             new_stock.generate_function()
